@@ -30,6 +30,31 @@ CHECKS = {
              "comment immediately before a scalar assignment becomes its annotation; all behaviours are replayed with annotation "
              "support on and off and tree + annotations compared.",
         note="Bounded token count; annotations that the statement leaves open (comment before a section, function or brace-less list) are wildcards in the spec and not compared."),
+    "C12": dict(
+        cat="model_checking", ref="7/C12",
+        text="The token alphabet contains an undeclared name at every nesting level; TLC enumerates every token order up to the bound "
+             "with CFGF_IGNORE_UNKNOWN and checks that the state machine agrees with the reference meaning in which a well-formed "
+             "undeclared item (assignment, list, append, call, plain or titled section with nested content) is skipped without effect, "
+             "that accepted texts are silent, and that the same text without the flag is rejected with a diagnostic exactly when it "
+             "contains an undeclared item. Every behaviour is replayed; tree, return code, diagnostics, heap/descriptor balance compared.",
+        note="Bounded token count (nesting of unknown sections up to the bound); malformed undeclared items are outside the statement "
+             "and only checked for crashes/leaks. The 10^5-deep stress instance lives in C02."),
+    "C14": dict(
+        cat="model_checking", ref="7/C14",
+        text="Schema with value-parsing, validation and function callbacks on a scalar, a list, a multi section and a function, plus "
+             "pointer options. For every token sequence up to the bound and every choice of the single failing invocation TLC checks "
+             "that the verdict binds (nothing is invoked or applied after the failing call), that stored values are the callback's "
+             "products and that validation sees the value just stored. Replay compares the real callback log (kind, option, decoded "
+             "text / argv, visible values) entry by entry, plus tree and return code, also after the rejection.",
+        note="Bounded; the pre-set validation callback of the by-name setters (veto/rewrite) is exercised by the C10 check."),
+    "C07": dict(
+        cat="model_checking", ref="7/C07",
+        text="Ledger part of the spec: every store operator that drops values reports the user pointers it lets go of; TLC checks "
+             "that a pointer is released at most once and never while still stored, on every token sequence (= every cut/corruption "
+             "point) up to the bound with callbacks failing at every position. Replay checks the release-callback log against the "
+             "spec per call and at cfg_free, live heap blocks / open streams / descriptors back to their start values, ASan/UBSan clean.",
+        note="Heap-level double free / use after free is the sanitizer's verdict on the enumerated histories, not TLC's. API-sequence histories "
+             "(setters, section add/remove, search path) are covered by the C09 check's balance aspect."),
 }
 
 PENDING = {
